@@ -45,13 +45,21 @@ impl Chip {
             Chip::C127(c) => c.receiving(),
         }
     }
+    /// SX126x: has CalibrateImage been issued since the last configuration loss? (None: the part
+    /// calibrates by itself - SX127x)
+    pub fn image_calibrated(&self) -> Option<bool> {
+        match self {
+            Chip::C126(c) => Some(c.programmed.contains("image-calibration")),
+            Chip::C127(_) => None,
+        }
+    }
     pub fn mode_name(&self) -> String {
         match self {
             Chip::C126(c) => format!("{:?}", c.mode),
             Chip::C127(c) => format!("opmode {:#04x}", c.regs[1]),
         }
     }
-    fn irq_line(&self) -> bool {
+    pub fn irq_line(&self) -> bool {
         match self {
             Chip::C126(c) => c.dio1(),
             Chip::C127(c) => c.dio(),
